@@ -16,7 +16,7 @@ CHECKS = {
  'C03': dict(cat='exploration', ref='5/C03',
    tech='property-based testing: generated macrobody cards, parametric-solid and facet half-space differential oracle',
    text='Every generated macrobody (all kinds/parameterisations, any orientation and handedness) is probed through the cells -b, +b, -b.k, +b.k; membership of uniform and facet-bisected points is compared with the parametric solid and the outward facet half-spaces.',
-   note='Trusted: macrobody definitions and facet numbering of DESIGN 4.2; ELL(+) formula adopted from the repository as documented MCNP behaviour; TRC facet 1 judged on the body side of the apex.'),
+   note='Trusted: macrobody definitions and facet numbering of DESIGN 4.2; ELL(+) formula adopted from the repository as documented MCNP behaviour; TRC facet 1 judged on the body side of the apex. One case in four places the probe cells two universe levels down (each FILL with its own transformation) and is judged like C05.'),
  'C04': dict(cat='exploration', ref='5/C04',
    tech='property-based testing: generated rigid motions x spellings x base objects, inverse-image differential oracle',
    text='Surfaces with a TR number, cells with TRCL/*TRCL (numbered or inline) and implicit 1000*cell+surf surfaces are converted and compared point-wise with the base object evaluated at the inverse image of the point; TR cards in 3/12/13-entry, degree and abbreviated forms.',
@@ -52,7 +52,7 @@ CHECKS = {
  'C12': dict(cat='exploration', ref='5/C12',
    tech='property-based testing: generated importance specifications (cell cards, data cards with shorthand, mixes) against an independent shorthand expander',
    text='Decks of 2-10 slab cells with importances from cell-card keywords, IMP:x data cards with nR/nM/nI shorthand, or a mix; the converted VOLU set must equal the non-zero-importance cells and the NOTE line must list exactly the zero-importance cells.',
-   note='Trusted: importance rule as restated in the property; harness-side shorthand expansion.'),
+   note='Trusted: importance rule as restated in the property; harness-side shorthand expansion. A quarter of the decks have level-0 cells filled with one or two universe levels of independent importances; a converted filled cell must yield one volume per leaf cell of the universes that fill it.'),
  'C13': dict(cat='exploration', ref='5/C13',
    tech='metamorphic property-based testing across all flag combinations (generated decks and the shipped example decks as a fixed corpus) + unit-level property on remove_duplicate_surfaces',
    text='Each generated deck (with duplicated surfaces) is converted under all 8 flag combinations with drawn inline scores; every decided point must read the same (provenance, composition) as in the reference output. Generated SurfaceT4 dictionaries check that de-duplication merges only identical surfaces.',
